@@ -204,7 +204,8 @@ def retains_context(h, frames):
     tail = src[k.start():]
     k2 = re.search(r"fn\s+retains_context\s*\(", tail)
     if not k2:
-        h.fail(f"exec: anchor not found: fn retains_context inside Stack::loop_count in {STACK}")
+        # the same function written as an explicit loop with the classification inline in its match
+        return retains_context_loop(h, tail, frames)
     fn_body = h.item_body(tail[k2.start():], r"fn\s+retains_context\s*\([^)]*\)\s*->\s*bool\s*(?=\{)",
                           f"body of retains_context ({STACK})")
     mm = re.fullmatch(r"\s*(!?)\s*matches!\s*\(\s*\*?\s*frame\s*,(.*)\)\s*", strip_comments(fn_body), flags=re.S)
@@ -229,6 +230,126 @@ def retains_context(h, frames):
         return b == "true"
     table = table_of_match(h, blk, frames, f"retains_context in {STACK}", body)
     return check_count_chain(h, tail, table)
+
+
+def retains_context_loop(h, tail, frames):
+    """`let mut n = 0; for frame in self.inner.iter().rev() { if n >= max_count { break; } match frame { … } } n`:
+    an arm `n += 1` counts the frame (and goes on), `{}`/`()`/`continue` goes on, `break` stops the count"""
+    body = strip_comments(h.item_body(tail, r"pub\s+fn\s+loop_count\s*\([^)]*\)\s*->\s*usize\s*(?=\{)",
+                                      f"body of Stack::loop_count ({STACK})"))
+    m = re.search(r"let\s+mut\s+(\w+)\s*(?::\s*usize\s*)?=\s*0\s*;", body)
+    if not m:
+        h.fail(f"exec: Stack::loop_count in {STACK}: neither a nested fn retains_context nor a counter `let mut n = 0;`")
+    n = m.group(1)
+    if not re.search(r"for\s+&?\s*frame\s+in\s+(?:&\s*)?self\s*\.\s*(?:inner\s*\.\s*)?iter\s*\(\s*\)\s*\.\s*rev\s*\(\s*\)\s*\{", body):
+        h.fail(f"exec: Stack::loop_count in {STACK}: the loop is not `for frame in self.inner.iter().rev()` (top of the stack first)")
+    if not re.search(r"if\s+(?:" + n + r"\s*>=\s*max_count|max_count\s*<=\s*" + n + r"|" + n + r"\s*==\s*max_count)\s*\{\s*break\s*;?\s*\}", body):
+        h.fail(f"exec: Stack::loop_count in {STACK}: the bound `if {n} >= max_count {{ break; }}` is missing")
+    if not re.search(r"\}\s*" + n + r"\s*$", body.strip() + ""):
+        h.fail(f"exec: Stack::loop_count in {STACK}: the function does not end by returning the counter `{n}`")
+    blk = h.item_body(body, r"match\s+\*?\s*frame\b", f"match frame in Stack::loop_count ({STACK})")
+
+    def cls(b):
+        b = "".join(b.strip().rstrip(",").split())
+        if b in (n + "+=1", n + "=" + n + "+1", "{" + n + "+=1;}", "{" + n + "+=1}"):
+            return "count"
+        if b in ("{}", "()", "", "continue", "{continue;}", "{continue}"):
+            return "go"
+        if b in ("break", "{break;}", "{break}"):
+            return "stop"
+        h.fail(f"exec: Stack::loop_count in {STACK}: cannot classify the arm body `{b[:40]}`")
+    rows = table_of_match(h, blk, frames, f"match frame in Stack::loop_count ({STACK})", cls)
+    counted = [v for v, c in rows if c == "count"]
+    if counted != ["Loop"]:
+        h.fail(f"exec: Stack::loop_count in {STACK} counts the frames {counted}, the model counts exactly Frame::Loop")
+    return [(v, c != "stop") for v, c in rows]
+
+
+def current_builtin_shape(h):
+    """`Stack::current_builtin`: the innermost `Frame::Builtin`, as `iter().rev().find_map(..)` or as a for loop with
+    an early return"""
+    src = strip_comments(h.read(STACK))
+    body = h.item_body(src, r"pub\s+fn\s+current_builtin\s*\([^)]*\)\s*->\s*Option\s*<[^{]*(?=\{)",
+                       f"body of Stack::current_builtin ({STACK})")
+    if not re.search(r"\.\s*iter\s*\(\s*\)\s*\.\s*rev\s*\(\s*\)", body):
+        h.fail(f"exec: Stack::current_builtin in {STACK} does not scan the stack from the top (`.iter().rev()`)")
+    a = re.search(r"\.\s*find_map\s*\(", body) and re.search(r"Frame\s*::\s*Builtin\s*\(\s*(\w+)\s*\)\s*=>\s*Some\s*\(\s*\1\s*\)", body)
+    b = re.search(r"for\s+\w+\s+in\b", body) and re.search(
+        r"if\s+let\s+Frame\s*::\s*Builtin\s*\(\s*(\w+)\s*\)\s*=\s*\w+\s*\{\s*return\s+Some\s*\(\s*\1\s*\)\s*;?\s*\}", body) \
+        and re.search(r"\}\s*None\s*$", body.strip())
+    if not (a or b):
+        h.fail(f"exec: Stack::current_builtin in {STACK}: neither `find_map(Frame::Builtin(b) => Some(b))` nor a for loop "
+               f"with `if let Frame::Builtin(b) = frame {{ return Some(b); }}` … `None`: `{' '.join(body.split())[:80]}`")
+    return True
+
+
+BREAK_SEM = "yash-builtin/src/break/semantics.rs"
+CONT_SEM = "yash-builtin/src/continue/semantics.rs"
+BREAK_SYN = "yash-builtin/src/break/syntax.rs"
+
+
+def level_offset(h, path, variant):
+    """`run`: 0 loops is `Error::NotInLoop`, otherwise the divert carries `loops - k`; returns k.
+    Shapes: `if c == 0 { return Err(..NotInLoop) } … count: c - k`   |   `match c.checked_sub(k) { None => Err(..NotInLoop), Some(x) => … }`
+    with `Divert::<variant> { count: x }` / `{ count }` in `run` or in a helper of the same file"""
+    src = strip_comments(h.read(path))
+    body = h.item_body(src, r"pub\s+fn\s+run\s*\([^)]*\)\s*->\s*\w+\s*(?=\{)", f"body of run ({path})")
+    if not re.search(r"\.\s*loop_count\s*\(\s*max_count\s*\.\s*get\s*\(\s*\)\s*\)", body):
+        h.fail(f"exec: run in {path} does not call stack.loop_count(max_count.get())")
+    if "NotInLoop" not in body:
+        h.fail(f"exec: run in {path} no longer reports Error::NotInLoop")
+    dv = re.search(r"Divert\s*::\s*" + variant + r"\s*\{\s*count\s*(?::\s*([^}]*?))?\s*\}", src)
+    if not dv:
+        h.fail(f"exec: {path}: no `Divert::{variant} {{ count … }}`")
+    m = re.search(r"match\s+(\w+)\s*\.\s*checked_sub\s*\(\s*(\d+)\s*\)\s*\{", body)
+    if m:
+        blk = h.item_body(body, r"match\s+\w+\s*\.\s*checked_sub\s*\(\s*\d+\s*\)\s*(?=\{)", f"match checked_sub in run ({path})")
+        arms = dict((("".join(p.split())), b) for p, b in match_arms(h, blk, f"match checked_sub in run ({path})"))
+        if "None" not in arms or "NotInLoop" not in arms["None"] or not any(k.startswith("Some(") for k in arms):
+            h.fail(f"exec: run in {path}: the checked_sub match is not `None => Err(NotInLoop), Some(x) => …`")
+        expr = (dv.group(1) or "count").strip()
+        if not re.fullmatch(r"\w+", expr):
+            h.fail(f"exec: {path}: with checked_sub the divert must carry the matched value, found `count: {expr}`")
+        k = int(m.group(2))
+        if k == 0:
+            h.fail(f"exec: run in {path}: checked_sub(0) never reports NotInLoop")
+        return k
+    z = re.search(r"if\s+(\w+)\s*==\s*0\s*\{\s*return\s+Err\s*\([^)]*NotInLoop\s*\)\s*;?\s*\}", body)
+    if not z:
+        h.fail(f"exec: run in {path}: neither `if c == 0 {{ return Err(NotInLoop) }}` nor a `checked_sub` match")
+    c = z.group(1)
+    expr = "".join((dv.group(1) or "count").split())
+    if expr == c:
+        return 0
+    mm = re.fullmatch(re.escape(c) + r"-(\d+)", expr)
+    if not mm:
+        h.fail(f"exec: {path}: cannot read the level expression `count: {expr}`")
+    return int(mm.group(1))
+
+
+def nonzero_const(h, src, expr, path):
+    expr = "".join(expr.split())
+    m = re.fullmatch(r"(?:\w+::)*NonZeroUsize::new\((\d+)\)\.unwrap\(\)", expr) or \
+        re.fullmatch(r"(?:\w+::)*NonZero::<usize>::new\((\d+)\)\.unwrap\(\)", expr)
+    if m:
+        return int(m.group(1))
+    if re.fullmatch(r"(?:\w+::)*NonZeroUsize::MIN", expr):
+        return 1
+    if re.fullmatch(r"[A-Z][A-Z0-9_]*", expr):
+        c = re.search(r"const\s+" + expr + r"\s*:\s*(?:\w+::)*NonZeroUsize\s*=\s*([^;]+);", src)
+        if c:
+            return nonzero_const(h, src, c.group(1), path)
+    h.fail(f"exec: {path}: cannot read the default count `{expr[:50]}`")
+
+
+def default_count(h):
+    src = strip_comments(h.read(BREAK_SYN))
+    body = h.item_body(src, r"pub\s+fn\s+parse\b[^{;]*(?=\{)", f"body of parse ({BREAK_SYN})")
+    m = re.search(r"None\s*=>\s*Ok\s*\(((?:[^()]|\([^()]*\))*)\)", body) or \
+        re.search(r"let\s+Some\s*\(\s*\w+\s*\)\s*=\s*operands\s*\.\s*pop\s*\(\s*\)\s*else\s*\{\s*return\s+Ok\s*\(((?:[^()]|\([^()]*\))*)\)\s*;?\s*\}", body)
+    if not m or "pop" not in body:
+        h.fail(f"exec: parse in {BREAK_SYN}: cannot find what is returned when `operands.pop()` is None")
+    return nonzero_const(h, src, m.group(1), BREAK_SYN)
 
 
 def check_count_chain(h, tail, table):
@@ -380,6 +501,10 @@ def extract(h):
     kws = keywords(h)
     diverts = divert_variants(h)
     report_rows, report_divert = report_tables(h, statuses)
+    current_builtin_shape(h)
+    off_b = level_offset(h, BREAK_SEM, "Break")
+    off_c = level_offset(h, CONT_SEM, "Continue")
+    dflt = default_count(h)
     types = enum_variants(h, h.read(BUILTIN_RS), "Type", BUILTIN_RS)
     special = posix_special_names(h)
     frames = enum_variants(h, h.read(STACK), "Frame", STACK)
@@ -413,6 +538,10 @@ def extract(h):
             "def divertVariants : List String := [" + ", ".join(h.lean_str(v) for v in diverts) + "]\n\n")
     out += (f"/-- the words `Keyword::from_str` ({KEYWORD_RS}) accepts = the words the `IsKeyword` hook of {STARTUP} calls keywords -/\n"
             "def keywords : List String := [" + ", ".join(h.lean_str(v) for v in kws) + "]\n\n")
+    out += (f"/-- `run` of {BREAK_SEM} / {CONT_SEM}: with c > 0 visible loops the divert carries c minus this -/\n"
+            f"def breakLevelOffset : Nat := {off_b}\n\ndef continueLevelOffset : Nat := {off_c}\n\n"
+            f"/-- `parse` of {BREAK_SYN}: the count when no operand is given -/\n"
+            f"def breakDefaultCount : Nat := {dflt}\n\n")
     out += (f"/-- the ExitStatus constant each report function of {REPORT} passes on -/\n"
             "def reportStatus : List (String × String) := ["
             + ", ".join(f"({h.lean_str(f)}, {h.lean_str(c)})" for f, c in report_rows) + "]\n\n")
